@@ -8,7 +8,21 @@ from props import tables_common as tc
 HDR = {"oem_id": [1, 2, 3, 4, 5, 6], "oem_table_id": [1, 2, 3, 4, 5, 6, 7, 8], "oem_rev": [9, 0, 0, 0]}
 
 
+FOLLOW = {"PPTT": {"op": "add_cache", "a": {}, "calls": [{"o": "size", "a": {"v": [0, 16, 0, 0]}}]},
+          "CEDT": {"op": "add_host_bridge", "a": {"uid": [7, 0, 0, 0], "version": "Cxl2", "base": [0, 0, 0, 128, 0, 0, 0, 0]}, "calls": []},
+          "HMAT": {"op": "add_memory_proximity", "a": {"init": [1, 0, 0, 0], "mem": [2, 0, 0, 0]}, "calls": []},
+          "RIMT": {"op": "add_iommu", "a": {"id": [9, 0], "base": [0, 16, 0, 0, 0, 0, 0, 0]}, "calls": []},
+          "RHCT": {"op": "add_mmu_node", "a": {"scheme": "Sv48"}, "calls": []},
+          "SRAT": {"op": "add_rintc_affinity", "a": {"uid": [1, 2, 3, 4], "clock": [5, 0, 0, 0]}, "calls": []},
+          "HEST": {"op": "add_aer_device", "a": {"ctor": "global"}, "calls": []},
+          "VIOT": {"op": "add_virtio_mmio_iommu", "a": {"base": [0, 0, 0, 64, 0, 0, 0, 0]}, "calls": []},
+          "MADT": {"op": "add_gicr", "a": {"base": [0, 0, 8, 0, 0, 0, 0, 0], "length": [0, 0, 2, 0]}, "calls": []}}
+
+
 def tprog(kind, ops, ctor=None, **kw):
+    # after the operation under test, the table is used further: a refused operation must leave it as it was
+    if kind in FOLLOW and len(ops) < 50:
+        ops = list(ops) + [FOLLOW[kind], FOLLOW[kind]]
     p = {"fam": "table", "kind": kind, "ctor": dict(HDR, **(ctor or {})), "ops": ops}
     p.update(kw)
     return p
